@@ -32,7 +32,8 @@ EXHAUSTIVE = "archive matrix: 2 kinds x 3 compression types x default/explicit p
 MUTS = ['append', 'setitem', 'truncate', 'meta', 'delete']
 MUST_HIT = ['copy:Array', 'copy:Ragged', 'src:empty-array', 'src:ragged-nosub', 'dtype:None', 'dtype:given', 'dtype:same-type-other-byteorder',
             'chunk<len', 'archive:xz', 'archive:gz', 'archive:bz2', 'archive:explicit-path', 'archive:existing+ow=False',
-            'archive:existing+ow=True', 'meta:nested'] + ['mut:' + m for m in MUTS]
+            'archive:existing+ow=True', 'meta:nested', 'target-occupied-by-array-with-metadata', 'source-metadata-emptied',
+            'returned-metadata-values-mutated-by-caller'] + ['mut:' + m for m in MUTS]
 
 
 @st.composite
@@ -43,7 +44,11 @@ def st_copy(draw):
     spec = {'f': 'copy', 'kind': kind, 'dt': dt, 'seed': draw(st.integers(0, 2 ** 31)),
             'dtarg': draw(st.one_of(st.none(), st.just(swapped), gens.st_dt(), gens.st_dt())),
             'meta': draw(st.sampled_from([None, 'nested'])), 'mode': draw(st.sampled_from(['r', 'r+'])),
-            'mut': draw(st.sampled_from(MUTS + [None])), 'side': draw(st.sampled_from(['src', 'copy']))}
+            'mut': draw(st.sampled_from(MUTS + [None])), 'side': draw(st.sampled_from(['src', 'copy'])),
+            # 'occupied': the target path holds another array with metadata and is replaced (overwrite=True);
+            # 'aliased': values handed out by src.metadata are changed in place by the caller before the copy is made;
+            # 'emptied': the source had metadata once, all keys were popped
+            'pre': draw(st.sampled_from([None, None, 'occupied', 'aliased', 'emptied', 'occupied+emptied']))}
     if kind == 'Array':
         spec['shape'] = draw(gens.st_shape(max_rank=3))
         spec['chunk'] = draw(st.sampled_from([None, 1, 2, 3, 100]))
@@ -119,6 +124,38 @@ def _exec_copy(ctx, spec):
             out.cls('src:ragged-nosub')
         if empty:
             tag += ':empty-source'
+        pre = spec.get('pre') or ''
+        if 'occupied' in pre:
+            out.cls('target-occupied-by-array-with-metadata')
+            occ = {'old': [1, 2], 'a': 'stale'}
+            # (an occupant of the other kind leaves its sub-directories behind by design, so a later delete of the copy would be
+            #  refused: for that mutation the occupant is of the same kind)
+            samekind = spec.get('mut') == 'delete'
+            if (kind == 'Array') if samekind else spec['seed'] % 2:
+                darr.asarray(cp, np.arange(7, dtype='float32'), metadata=occ)
+            else:
+                darr.asraggedarray(cp, [[1, 2], [3]], dtype='int8', metadata=occ)
+            kw['overwrite'] = True
+        if 'emptied' in pre and md:
+            for k_ in list(md):
+                src.metadata.pop(k_)
+            md = None
+            out.cls('source-metadata-emptied')
+        if pre == 'aliased' and md:
+            out.cls('returned-metadata-values-mutated-by-caller')
+            try:
+                v_ = src.metadata['n']
+                v_['x'].append('changed by the caller')
+                v_['MUT'] = 1
+                d_ = dict(src.metadata)
+                d_['a'] = 99
+                d_['n']['y'] = 'changed by the caller'
+                src.metadata.get('n')['x'][:] = []
+                for x_ in src.metadata.values():
+                    if isinstance(x_, dict):
+                        x_.clear()
+            except (KeyError, TypeError, AttributeError):
+                pass            # (only possible if an earlier change of a returned value already leaked back)
         try:
             c = src.copy(cp, dtype=dtarg, accessmode=spec['mode'], **kw)
         except Exception as e:
@@ -292,7 +329,23 @@ def grid():
                        'meta': None, 'mode': 'r', 'mut': None, 'side': 'src', 'shape': [5, 2], 'chunk': [None, 2][(i + j) % 2]}
 
 
+def pre_grid():
+    for kind, meta, pre, dtarg in itertools.product(['Array', 'Ragged'], [None, 'nested'], ['occupied', 'aliased', 'emptied', 'occupied+emptied'],
+                                                    [None, {'t': 'float64', 'bo': '>'}]):
+        for seed in (1, 2):
+            spec = {'f': 'copy', 'kind': kind, 'dt': {'t': 'int16', 'bo': '<'}, 'seed': seed, 'dtarg': dtarg, 'meta': meta, 'mode': 'r+',
+                    'mut': None, 'side': 'src', 'pre': pre}
+            if kind == 'Array':
+                yield dict(spec, shape=[4, 2], chunk=None)
+                yield dict(spec, shape=[0, 2], chunk=None)
+            else:
+                yield dict(spec, atom=[2], items=[{'n': 2, 'seed': 3}, {'n': 0, 'seed': 4}])
+                yield dict(spec, atom=[], items=[])
+
+
 def task_grid(ctx, col, shard):
+    if shard == 0:
+        enum_search(ctx, col, pre_grid(), lambda s: execute(ctx, s))
     enum_search(ctx, col, (s for i, s in enumerate(grid()) if i % NSHARDS == shard), lambda s: execute(ctx, s))
 
 
